@@ -401,8 +401,11 @@ def c128Loop (forced : Option Nat) : Nat → List Nat → Bool → Nat → List 
         match rest with
         | [] => .error .writer      -- "Bad number of characters for digit only encoding."
         | c2 :: rest2 =>
+          -- `if contents[position+1] < '0' || contents[position+1] > '9'`: "Bad character in input for code set C"
+          -- (repair 9926de4: a digit followed by FNC1 under a forced code set C indexed past the pattern table)
+          if c2 < 48 ∨ c2 > 57 then .error .writer
           -- (c-'0')*10 + (c2-'0') as Go ints; negative or ≥ 107 would index out of range
-          if c < 48 ∨ c2 < 48 ∨ (c - 48) * 10 + (c2 - 48) ≥ 107 then .error (.panic "pattern index out of range")
+          else if c < 48 ∨ (c - 48) * 10 + (c2 - 48) ≥ 107 then .error (.panic "pattern index out of range")
           else c128Loop forced fuel rest2 true codeSet (((c - 48) * 10 + (c2 - 48), true) :: acc)
     else
       let idx := if codeSet = 0 then (if newCodeSet = 101 then 103 else if newCodeSet = 100 then 104 else 105)
